@@ -180,12 +180,20 @@ def oracle(lines, cout, stats=None):
                 k = "NF=n:" + ("shrink" if int(w[1]) < len(sh.f) else "same" if int(w[1]) == len(sh.f) else "grow")
             elif op == "setf" and not w[1].startswith("-") and w[1] != "0":
                 k = "$i=v:" + ("existing" if int(w[1]) <= len(sh.f) else "beyond-NF") + (":long" if len(w[2]) > 400 else "")
-            elif op in ("set0", "getline", "next", "sub", "gsub") and len(w) > 1:
+            elif op in ("set0", "getline", "next", "sub", "gsub", "self0") and (len(w) > 1 or op == "self0"):
                 k = "split:" + fs_mode(sh.fs) + (":strip" if sh.strip else "")
+                same = sh.line if op == "self0" else unhx(w[1]) if op in ("set0", "getline", "next") else (
+                    sh.line.replace(unhx(w[1]), unhx(w[2]).replace("&", unhx(w[1])), 1 if op == "sub" else -1) if unhx(w[1]) and unhx(w[1]) in sh.line else None)
+                if same is not None and same == sh.line:
+                    f2 = ref_split(sh.fs, sh.strip, same)
+                    k2 = "rewrite-with-identical-text:" + ("fields-were-stale" if (f2 is not None and f2 != sh.f) else "fields-already-equal")
+                    stats[k2] = stats.get(k2, 0) + 1
             if k:
                 stats[k] = stats.get(k, 0) + 1
         if op in ("set0",) or (op == "setf" and int(w[1]) == 0):
             resplit = unhx(w[-1])
+        elif op == "self0":
+            resplit = sh.line          # $0 = $0 is a whole-record assignment like any other: it re-splits
         elif op == "setf":
             k = int(w[1])
             if k < 0:
@@ -213,7 +221,9 @@ def oracle(lines, cout, stats=None):
             if d.get("c") != str(cnt):
                 return (i, "%s reported %s substitutions, expected %d" % (op, d.get("c"), cnt))
             if cnt > 0:
-                resplit = sh.line.replace(pat, rep, 1 if op == "sub" else -1)
+                # ANY successful sub/gsub on $0 assigns $0 (clear + re-split under the FS in force now), also when the
+                # text comes out the same; `&` in the replacement is the matched text
+                resplit = sh.line.replace(pat, rep.replace("&", pat), 1 if op == "sub" else -1)
             else:
                 expect_same = True
         elif op in ("getline", "next"):
@@ -292,7 +302,9 @@ REC_ALPHA = ["a", "b", " ", ":", "1", " ", ":", ",", "\t"]
 FS_BLANK, FS_CHAR, FS_REX, FS_Q = [" "], [":", ",", "\t", "b", ""], ["[:,]+", "a+", ":+", " +", "[ ]", "ab", "[ :]+", "a*", "b?:", "[^a1]+"], ['?:\\""', '? \\""', "?,\\[]", "?:b11"]
 OFS_POOL = [" ", "-", "", "::", ":"]
 VAL_POOL = ["", "x", "xy", "a b", ":", "1", "a:b", " ", "xxxx", "é"]
-SUB_POOL = [("a", "QQ"), (":", ""), (" ", ":"), ("b", "b b"), ("ab", "x"), ("1", " 1 "), ("zz", "y")]
+SUB_POOL = [("a", "QQ"), (":", ""), (" ", ":"), ("b", "b b"), ("ab", "x"), ("1", " 1 "), ("zz", "y"),
+            # replacements that reproduce the matched text: the record text comes out identical, yet it is a rewrite
+            ("a", "a"), ("b", "&"), (" ", " "), (":", "&"), ("1", "1"), (",", ","), ("a", "&")]
 
 
 def gen_text(rng, quoted=False):
@@ -309,6 +321,51 @@ def gen_text(rng, quoted=False):
     if rng.random() < 0.03:
         s = s + " " + "w" * rng.choice([250, 300, 600]) + " z"   # force the record buffer to be reallocated
     return s
+
+
+def gen_stale_rewrite(rng):
+    """whole-record rewrites (sub/gsub on $0, $0 = $0, getline, $0 = s) issued when the fields on hand are NOT what a
+    fresh split of the record text gives: after `$i = v` with separator characters inside v, after a rebuild with an
+    OFS that FS does not match, after an FS/STRIPRECSPC change.  Half of the rewrites leave the text identical
+    (replacement = matched text, `&`, $0 = $0, the same line read again)."""
+    lines = ["new"]
+    fs = rng.choice([" ", " ", ":", ",", "[:,]+", " +", "a+"])
+    if fs != " " or rng.random() < 0.3:
+        lines.append("fs " + hx(fs))
+    if rng.random() < 0.4:
+        lines.append("ofs " + hx(rng.choice(OFS_POOL)))
+    t = gen_text(rng) or "a b c"
+    lines.append(rng.choice(["set0 ", "next ", "getline "]) + hx(t))
+    chars = [c for c in t if c != "&" and ord(c) < 127]
+    only_fs_changed = True
+    for _ in range(rng.randrange(1, 4)):
+        k = rng.random()
+        if k < 0.45:
+            v = rng.choice(["p q", "a b", "x:y", " ", ":", "a,b", "1 1", "b", " a", "q "])
+            lines.append("setf %d %s" % (rng.randrange(1, 5), hx(v))); chars += list(v); only_fs_changed = False
+        elif k < 0.60:
+            lines.append("ofs " + hx(rng.choice(["-", "", "::", ":", ","]))); lines.append("setf %d %s" % (rng.randrange(1, 4), hx(rng.choice(VAL_POOL[:8])))); only_fs_changed = False
+        elif k < 0.72:
+            lines.append("ofs " + hx(rng.choice(["-", "", "::", ":"]))); lines.append("setnf %d" % rng.randrange(1, 6)); only_fs_changed = False
+        elif k < 0.95:
+            lines.append("fs " + hx(rng.choice([" ", ":", ",", "-", "[:,]+", "b", "a+", '?:\\""'])))
+        else:
+            lines.append("strip %d" % rng.randrange(0, 2))
+    for _ in range(rng.randrange(1, 3)):
+        k = rng.random()
+        c = rng.choice(chars) if chars else "a"
+        if k < 0.40:
+            lines.append("%s %s %s" % (rng.choice(["sub", "gsub"]), hx(c), hx(rng.choice([c, "&", c, "&", c + c, ""]))))
+        elif k < 0.60:
+            lines.append("self0")
+        elif k < 0.75:
+            lines.append(rng.choice(["getline ", "set0 ", "next "]) + hx(t if only_fs_changed or rng.random() < 0.5 else gen_text(rng)))
+        else:
+            p, r = rng.choice(SUB_POOL)
+            lines.append("%s %s %s" % (rng.choice(["sub", "gsub"]), hx(p), hx(r)))
+        if rng.random() < 0.4:
+            lines.append(rng.choice(["read 2", "readnf", "setnf 2", "setf 1 " + hx("z")]))
+    return lines
 
 
 def gen_history(rng, n):
@@ -337,9 +394,11 @@ def gen_history(rng, n):
         elif k < 0.58:
             m = rng.choice([0, 1, 2, nf - 1, nf, nf, nf + 1, nf + 3, rng.randrange(0, 9)])
             lines.append("setnf %d" % max(m, 0)); nf = max(m, 0)
-        elif k < 0.66:
+        elif k < 0.64:
             p, r = rng.choice(SUB_POOL)
             lines.append("%s %s %s" % (rng.choice(["sub", "gsub"]), hx(p), hx(r)))
+        elif k < 0.66:
+            lines.append("self0")
         elif k < 0.73:
             lines.append("ofs " + hx(rng.choice(OFS_POOL)))
         elif k < 0.80:
@@ -369,7 +428,7 @@ def gen_history(rng, n):
 
 EXH_ALPHA = ["set0 " + hx("a b c"), "set0 " + hx(" a:b  1 "), "setf 1 " + hx("xxxx"), "setf 2 -", "setf 5 " + hx("q"),
              "setnf 0", "setnf 2", "setnf 5", "ofs " + hx("-"), "ofs -", "fs " + hx(":"), "gsub %s %s" % (hx("a"), hx("QQ")),
-             "getline " + hx("b a"), "read 2"]
+             "getline " + hx("b a"), "read 2", "gsub %s %s" % (hx("a"), hx("&")), "self0", "setf 2 " + hx("p q")]
 
 
 def exhaustive(depth):
@@ -438,6 +497,8 @@ def run(ctx):
     nhist = 2500 if ctx.tier == "quick" else 200000
     for _ in range(nhist):
         blocks.append(gen_history(rng, rng.randrange(1, 12)))
+    for _ in range(nhist // 3):
+        blocks.append(gen_stale_rewrite(rng))
     batches, cur, n = [], [], 0
     for b in blocks:
         cur.append(b); n += len(b)
@@ -540,7 +601,7 @@ def run(ctx):
     nontriv = len({tuple(b) for b in blocks if nontrivial(b)})
     samples = [" ; ".join(pretty(l) for l in b[:10]) for b in (blocks[ncorpus + 5:ncorpus + 6] + blocks[-3:])]
     return C.finish(ctx, [proof], evaluations, nontriv,
-                    "histories = corpus + every sequence of length %d over a 14-op alphabet after an implicit record read + seeded random histories (<= 12 ops over "
+                    "histories = corpus + every sequence of length %d over a 17-op alphabet after an implicit record read + seeded random histories (<= 12 ops over "
                     "$0=s, $i=v with i up to NF+3, NF=n, sub/gsub on $0, OFS=, FS= in blank/char/empty/regex/'?'-quoted modes, STRIPRECSPC, OFMT, plain getline, main-loop read, reads; "
                     "records over {a,b,blank,:,1,comma,tab} with leading/trailing/multiple separators, empty records, >256-char records); after every op the program's own reads (NF, $0, "
                     "every $i by value and through a positional reference) and the internal state (NF global, nflds, inrec.line, d0, each field's buffer/offset/len/value, val_ref_to_str/"
@@ -577,6 +638,8 @@ def to_awk(block, show=SHOW):
             continue
         elif op == "set0":
             st.append("$0 = %s;" % awk_str(unhx(w[1])))
+        elif op == "self0":
+            st.append("$0 = $0;")
         elif op == "setf":
             st.append("$(%s) = %s;" % (w[1], awk_str(unhx(w[2]))))
         elif op == "setnf":
